@@ -32,6 +32,11 @@ type c12CoreCase struct {
 func c12Protect(f func() error) (res c12Result) {
 	defer func() {
 		if r := recover(); r != nil {
+			if fres, ok := c12FatalResult(r); ok {
+				res = fres
+				res.Class = c12Class(res)
+				return
+			}
 			res.Outcome = "panic"
 			res.Msg = fmt.Sprint(r)
 			res.PType = fmt.Sprintf("%T", r)
